@@ -24,7 +24,7 @@ import ast
 from fractions import Fraction as F
 
 from ..loader import AnalysisError
-from ..pe import ConfigRejected, PyRaise, Tensor, Obj, PE, ClassRef
+from ..pe import ConfigRejected, PyRaise, Tensor, Obj, PE, ClassRef, NArr
 from .. import quant, qref
 from ..qir import Fwd, equal_mod_finite
 from ..nf import NF, show
@@ -40,6 +40,9 @@ PTS = Tensor(("sym", "post_training_scale"), None)
 # the context that makes the option effective.  The parameter lists are
 # checked against the constructors on every run.
 AUTO2 = dict(alpha="auto_po2", scale_axis=1)
+# a per-channel constant scale given as a numpy array
+ALPHA_VEC = NArr([F(1, 2), F(1), F(2), F(4), F(8), F(16)])
+
 ALTS = {
     "quantized_linear": ({}, {
         "bits": [5], "integer": [2], "symmetric": [0], "keep_negative": [False],
@@ -65,7 +68,8 @@ ALTS = {
         "alpha": [F(2), "auto"], "temperature": [F(4)],
         "use_real_sigmoid": [False]}),
     "ternary": ({}, {
-        "alpha": [F(2), "auto", "auto_po2"], "threshold": [F(1, 2), 0],
+        "alpha": [F(2), "auto", "auto_po2", ALPHA_VEC],
+        "threshold": [F(1, 2), 0],
         "use_stochastic_rounding": [(True, dict(alpha="auto"))],
         "number_of_unrolls": [(3, dict(alpha="auto"))]}),
     "stochastic_ternary": ({"alpha": "auto"}, {
@@ -74,7 +78,7 @@ ALTS = {
         "temperature": [F(4)], "use_real_sigmoid": [False],
         "number_of_unrolls": [3]}),
     "binary": ({}, {
-        "use_01": [True], "alpha": [F(2), "auto", "auto_po2"],
+        "use_01": [True], "alpha": [F(2), "auto", "auto_po2", ALPHA_VEC],
         "use_stochastic_rounding": [True],
         "scale_axis": [(0, dict(alpha="auto"))],
         "elements_per_scale": [(2, dict(alpha="auto", scale_axis=1))],
